@@ -220,6 +220,7 @@ UnpackB(T, cx, j) ==
     [] T[1] \in {"newtype", "alias695"} -> Unpack(T[3], cx, j)
     [] T[1] = "stype" -> LET r == Unpack(T[3], cx, j) IN IF IsOk(r) THEN Ok(<<"sobj", T[2], r[2]>>) ELSE r
     [] T[1] \in {"final", "annotated"} -> Unpack(T[2], cx, j)
+    [] T[1] = "rec695" -> Unpack(T[4], cx, j)
     [] T[1] \in {"fwd", "tvarc", "tvarb"} -> Unpack(T[3], cx, j)
     [] T[1] = "dc" -> FromDict(T, cx, j)
 
@@ -259,6 +260,7 @@ Conforms(T, v) ==
     [] T[1] \in {"newtype", "alias695"} -> Conforms(T[3], v)
     [] T[1] = "stype" -> v[1] = "sobj" /\ v[2] = T[2] /\ Conforms(T[3], v[3])
     [] T[1] \in {"final", "annotated"} -> Conforms(T[2], v)
+    [] T[1] = "rec695" -> Conforms(T[4], v)
     [] T[1] \in {"fwd", "tvarc", "tvarb"} -> Conforms(T[3], v)
     [] T[1] = "dc" -> v[1] = "obj" /\ v[2] = T[2] /\ Len(v[3]) = Len(T[3]) /\
                       \A i \in DOMAIN T[3] : (Nullable(T[3][i]) /\ IsNone(v[3][i])) \/ Conforms(T[3][i][2], v[3][i])
